@@ -25,7 +25,7 @@ ASSUMPTIONS = ["Jinja evaluates the SF-core expression fragment as integer arith
 
 
 DIRECTED = [S.stream_dual_forward_underfilled, S.stream_first_statement_names, S.stream_first_statement_names, S.stream_late_forward_reference, S.stream_var_before_definition, S.stream_var_before_definition, S.stream_once_hidden,
-            S.stream_idle_middle, S.stream_shared_nick_forward, S.stream_once_cluster, S.stream_captured_slot, S.stream_once_nick_like_once_table, S.stream_once_after_lookup, S.stream_once_idle_first]
+            S.stream_idle_middle, S.stream_shared_nick_forward, S.stream_once_cluster, S.stream_captured_slot, S.stream_once_nick_like_once_table, S.stream_once_after_lookup, S.stream_once_idle_first, S.stream_constant_vars]
 
 
 IMPORT_STATS = {}
